@@ -50,6 +50,7 @@ func checkC12(ctx *Ctx, r *Report) {
 	c12StructSkeleton(ctx, r, p)
 	c12NullableAnyIndex(ctx, r, p)
 	c12Operators(ctx, r, p)
+	c12UnionAndConst(ctx, r, p)
 }
 
 func c12Method(p *packages.Package, name string) *ast.FuncDecl {
@@ -582,5 +583,68 @@ func c12Operators(ctx *Ctx, r *Report, p *packages.Package) {
 		}
 		r.Check(handled[o], "kinds/operator-table", "jsonschema jenny translates "+o, token.NoPos, "translated into a keyword",
 			fmt.Sprintf("the constraint operator %q (produced by a front-end) has no case in addStringConstraints/addNumberConstraints: the constraint is silently absent from the emitted JSON Schema and OpenAPI documents", o))
+	}
+}
+
+// c12UnionAndConst (added after the second round of seeds): unions are emitted as `anyOf` — the generated types accept a
+// value that matches several branches, `oneOf` would reject it; `const` is emitted exactly when the scalar is concrete.
+func c12UnionAndConst(ctx *Ctx, r *Report, p *packages.Package) {
+	info := p.TypesInfo
+	if fd := c12Method(p, "formatDisjunction"); fd == nil {
+		r.Undecided("anchor lost: jsonschema.Schema.formatDisjunction")
+	} else {
+		var kws []string
+		nonLiteral := false
+		ast.Inspect(fd.Body, func(m ast.Node) bool {
+			c, ok := m.(*ast.CallExpr)
+			if !ok || len(c.Args) != 2 {
+				return true
+			}
+			if fn := callee(info, c); fn == nil || fn.Name() != "Set" {
+				return true
+			}
+			if lit, ok := c.Args[0].(*ast.BasicLit); ok {
+				kws = append(kws, strings.Trim(lit.Value, "\""))
+			} else {
+				nonLiteral = true
+			}
+			return true
+		})
+		okU := !nonLiteral && len(kws) == 1 && kws[0] == "anyOf"
+		r.Check(okU, "keywords/union-anyof", "jsonschema.formatDisjunction keyword", fd.Pos(), "unions are emitted as anyOf",
+			fmt.Sprintf("formatDisjunction emits %v (or a computed keyword): with oneOf a value matching two branches — the IR does not make branches exclusive, and the generated Go type decodes it — is rejected by the emitted schema", kws))
+	}
+	fd := c12Method(p, "formatScalar")
+	if fd == nil {
+		return
+	}
+	parents := parentMap(fd)
+	found := false
+	ast.Inspect(fd.Body, func(m ast.Node) bool {
+		c, ok := m.(*ast.CallExpr)
+		if !ok || len(c.Args) != 2 {
+			return true
+		}
+		lit, ok := c.Args[0].(*ast.BasicLit)
+		if !ok || lit.Value != `"const"` {
+			return true
+		}
+		found = true
+		conds := enclosingConds(parents, c)
+		okC := len(conds) == 1 && !conds[0].inElse
+		if okC {
+			cc, isCall := ast.Unparen(conds[0].stmt.Cond).(*ast.CallExpr)
+			okC = isCall && len(cc.Args) == 0
+			if okC {
+				fn := callee(info, cc)
+				okC = fn != nil && (fn.Name() == "IsConcrete" || fn.Name() == "IsConcreteScalar")
+			}
+		}
+		r.Check(okC, "skeleton/schema-struct", "jsonschema.formatScalar const", c.Pos(), "`const` is emitted exactly when the scalar is concrete",
+			"`const` is emitted under another condition than `…IsConcrete()`: some constants of the IR silently disappear from the emitted JSON Schema / OpenAPI documents")
+		return true
+	})
+	if !found {
+		r.Bad("skeleton/schema-struct", "jsonschema.formatScalar const", fd.Pos(), "formatScalar no longer emits `const` for concrete scalars")
 	}
 }
